@@ -105,7 +105,8 @@ class ListGeomArray(Sort):
         values = [gen_float(rng, self.finite) for _ in range(levels[-1][-1])]
         coord_dtype = rng.choice([None] * 6 + ['int32', 'int16', 'int64', 'float32'])
         if coord_dtype and coord_dtype.startswith('int'):
-            values = [float(rng.choice([0, 1, -1, 2, 3, -2, 4])).hex() for _ in values]
+            big = 1025 if rng.random() < 0.3 else 1      # large exact coordinates: measures beyond 2**24
+            values = [float(big * rng.choice([0, 1, -1, 2, 3, -2, 4])).hex() for _ in values]
         if self.cls in ('PolygonArray', 'MultiPolygonArray') and rng.random() < 0.7:
             # valid polygons: closed rectangular rings, the first ring of a polygon is the shell, the others lie inside it
             ring_off = [0]
